@@ -135,6 +135,12 @@ func runC13(c *Ctx) {
 			if ef.Kind == "store" && ef.Addr.Op == "faddr" && ef.Addr.Args[0] == req {
 				stored[ef.Addr.Aux] = u.bdd.Or(stored[ef.Addr.Aux], ef.Cond)
 			}
+			if ef.Kind == "store" && ef.Addr == req {
+				// *req = Request{...}: every field is overwritten at once
+				for _, f := range structFields(reqT) {
+					stored[f] = u.bdd.Or(stored[f], ef.Cond)
+				}
+			}
 		}
 		isPool := req != nil && req.Op == "call" && strings.Contains(req.Aux, "Pool") && strings.HasSuffix(strings.TrimSuffix(req.Aux, ")"), ".Get") || (req != nil && strings.Contains(req.key, ".Get"))
 		if !isPool {
